@@ -83,6 +83,9 @@ func dupify(rng *rand.Rand, t *jt.Node, pool, epool []string) *jt.Node {
 			// plaintexts must give equal ciphertexts whatever the slot kind
 			if rng.Intn(2) == 0 {
 				n.S = pool[rng.Intn(3)]
+			} else if rng.Intn(4) == 0 {
+				// the class placeholder itself as the client's value
+				n.S = map[string]string{"oid": "000000000000000000000000", "date": "1970-01-01T00:00:00.000Z", "b64": "AAAAAAAAAAAAAAAAAAA="}[n.T.Class]
 			}
 		}
 	})
@@ -127,8 +130,10 @@ func C10() int {
 		lr := rand.New(rand.NewSource(c.Seed*13 + int64(fi)))
 		tok := gg.Token()
 		hexid := gg.OID()
-		pool := []string{hexid, "2024-01-02T03:04:05.678Z", "QUJD" + tok, "Alice" + tok, "alice" + tok, "Alice" + tok + " ", " Alice" + tok, "Аlice" + tok, "Alice" + tok + "​", tok, tok + tok, "", "A", "a", "é" + tok, "é" + tok, "Alice" + tok + "\x00", "Alice" + tok + "\x00\x00", "\x00", "ab", "ab\x00", tok + strings.Repeat("L", 16384-len(tok)), tok + strings.Repeat("L", 16385-len(tok)), tok + strings.Repeat("M", 20000)}
-		epool := []string{"bob" + tok + "@Example.com", "bob" + tok + "@EXAMPLE.COM", "bob" + tok + "@example.com", "Bob" + tok + "@example.com", "bob" + tok + "@example.org", "bob" + tok + "@exampl.ecom"}
+		pool := []string{hexid, "2024-01-02T03:04:05.678Z", "QUJD" + tok, "Alice" + tok, "alice" + tok, "Alice" + tok + " ", " Alice" + tok, "Аlice" + tok, "Alice" + tok + "​", tok, tok + tok, "", "A", "a", "é" + tok, "é" + tok, "Alice" + tok + "\x00", "Alice" + tok + "\x00\x00", "\x00", "ab", "ab\x00", tok + strings.Repeat("L", 16384-len(tok)), tok + strings.Repeat("L", 16385-len(tok)), tok + strings.Repeat("M", 20000),
+			// values that ARE a placeholder text: sensitive all the same, so encrypt mode must still encrypt them
+			"REDACTED", "[x]", "redacted@redacted.com", "1970-01-01T00:00:00.000Z", "000000000000000000000000", "AAAAAAAAAAAAAAAAAAA="}
+		epool := []string{"bob" + tok + "@Example.com", "bob" + tok + "@EXAMPLE.COM", "bob" + tok + "@example.com", "Bob" + tok + "@example.com", "bob" + tok + "@example.org", "bob" + tok + "@exampl.ecom", "redacted@redacted.com"}
 		items := CoreCorpus(gg, perFile)
 		for i := range items {
 			t2 := dupify(lr, items[i].Tree, pool, epool)
@@ -235,11 +240,18 @@ func C10() int {
 					}
 				case jt.Str:
 					c.Count("string_leaves_compared", 1)
-					if p.S == in.S && (in.S == f.Replacement() || in.S == "redacted@redacted.com" || in.S == "1970-01-01T00:00:00.000Z" || in.S == "000000000000000000000000" || in.S == "AAAAAAAAAAAAAAAAAAA=") {
+					isPlaceholderText := in.S == f.Replacement() || in.S == "redacted@redacted.com" || in.S == "1970-01-01T00:00:00.000Z" || in.S == "000000000000000000000000" || in.S == "AAAAAAAAAAAAAAAAAAA="
+					sensLeaf := in.T != nil && in.T.Role == jt.Sens
+					if p.S == in.S && isPlaceholderText && !sensLeaf {
 						c.Count("ambiguous_leaves_equal_to_a_placeholder", 1)
 						return
 					}
-					if p.S == in.S {
+					if p.S == in.S && isPlaceholderText && sensLeaf {
+						// a sensitive literal whose text happens to be the placeholder of its position:
+						// placeholder mode "replaces" it by itself; encrypt mode must encrypt it like any
+						// other value (never emit it in clear, decrypts back to it)
+						c.Count("sensitive_leaves_equal_to_their_placeholder", 1)
+					} else if p.S == in.S {
 						// not replaced by placeholder mode => must be untouched in encrypt mode
 						if e.S != in.S {
 							c.Violation("extra-encryption|"+opSig(path), fmt.Sprintf("string at %s is kept by placeholder mode but changed by encrypt mode: %q -> %q (flags %s)", jt.PathStr(path), trunc(in.S, 50), trunc(e.S, 50), f), rp(nil))
@@ -279,7 +291,7 @@ func C10() int {
 					} else {
 						c.Count("repeated_plaintexts_seen", 1)
 					}
-					if in.T.Role == jt.Sens && len(in.S) >= 8 && h.HasString(in.S) {
+					if in.T.Role == jt.Sens && len(in.S) >= 8 && !isPlaceholderText && h.HasString(in.S) {
 						c.Violation("leak-in-encrypt-mode|"+opSig(path), fmt.Sprintf("planted %q at %s is visible in the encrypt-mode line", trunc(in.S, 50), jt.PathStr(path)), rp(nil))
 					}
 				}
